@@ -1,0 +1,17 @@
+//go:build verif
+
+package node
+
+// Contracts for the deductive verifier in /verif (build tag "verif" only; this
+// file contains no declarations and is not part of any normal build).
+//
+//@ mode int
+//@ implicit [C05]
+//
+// Displaying a parse error with its caret line never fails, provided the reported span lies
+// inside the input (which the scanner guarantees for every span it hands out).
+//@ func reportError [C06]
+//@   requires err != nil && 0 <= err.From() && err.From() <= err.To() && err.To() <= len(line)
+//
+//@ canary func (Name).Name
+//@   ensures false
